@@ -244,6 +244,19 @@ structure PlatformDef where
   networkOnClose : Option Bytes := none
   options : List (Bytes × YVal) := []
 
+/-- `Platform.mergeVariant` (`NewPlatformVariant`): a variant replaces the parts of the default
+definition it sets (a non-empty list / map / name, a present on-X block); the `options:` block of
+a variant is NOT merged — the default's options stay. -/
+def mergeVariant (p v : PlatformDef) : PlatformDef :=
+  { failedWhenContains := if v.failedWhenContains.isEmpty then p.failedWhenContains else v.failedWhenContains
+    onOpen := if v.onOpen.isSome then v.onOpen else p.onOpen
+    onClose := if v.onClose.isSome then v.onClose else p.onClose
+    privilegeLevels := if v.privilegeLevels.isEmpty then p.privilegeLevels else v.privilegeLevels
+    defaultDesiredPriv := if v.defaultDesiredPriv.isEmpty then p.defaultDesiredPriv else v.defaultDesiredPriv
+    networkOnOpen := if v.networkOnOpen.isSome then v.networkOnOpen else p.networkOnOpen
+    networkOnClose := if v.networkOnClose.isSome then v.networkOnClose else p.networkOnClose
+    options := p.options }
+
 def optOfTok (o : Opt) : Option Bytes → List OptInst
   | some t => [{ opt := o, args := [[t]] }]
   | none => []
